@@ -7,58 +7,202 @@ import (
 	"gobmc/vrt"
 )
 
-func actorMutex(m *csync.Mutex, occ *int) {
-	ctx, cancel := context.WithCancel(context.Background())
-	if vrt.Bool("cancels") {
-		vrt.Go("canceller", cancel)
+// ---- C01: csync locks, safety (occupancy counters strictly inside the held interval) ----
+
+type occ struct{ n, readers, writers int }
+
+func (o *occ) enterMutex() {
+	vrt.Atomic(func() {
+		o.n++
+		vrt.Assert(o.n == 1, "mutex-excl")
+	})
+	vrt.Atomic(func() { o.n-- })
+}
+
+func (o *occ) enterRW(write bool) {
+	if write {
+		vrt.Atomic(func() {
+			o.writers++
+			vrt.Assert(o.writers == 1 && o.readers == 0, "rw-excl-writer")
+		})
+		vrt.Atomic(func() { o.writers-- })
+	} else {
+		vrt.Atomic(func() {
+			o.readers++
+			vrt.Assert(o.writers == 0, "rw-excl-reader")
+		})
+		vrt.Atomic(func() { o.readers-- })
 	}
-	var rel func()
-	if vrt.Bool("try") {
-		r, ok := m.TryLock()
-		if !ok {
+}
+
+// H_C01_Mutex3: three role-specialised actors on one csync.Mutex: Lock whose context may be
+// cancelled at any moment, TryLock, and Lock with a double release. At most one of them is ever
+// inside; the double release frees nobody else's hold (a third actor would get in); under the
+// specification every actor finishes, so any actor still blocked at quiescence is a lost wake-up.
+func H_C01_Mutex3() {
+	var m csync.Mutex
+	var o occ
+	vrt.Go("lock-cancel", func() {
+		ctx, cancel := context.WithCancel(context.Background())
+		vrt.CancelAnytime(cancel)
+		rel, err := m.Lock(ctx)
+		if err != nil {
+			vrt.Cover("lock-returned-cancelled")
 			return
 		}
-		rel = r
-	} else {
-		r, err := m.Lock(ctx)
+		vrt.Cover("lock-granted")
+		o.enterMutex()
+		rel()
+	})
+	vrt.Go("try", func() {
+		rel, ok := m.TryLock()
+		if !ok {
+			vrt.Cover("trylock-failed")
+			return
+		}
+		o.enterMutex()
+		rel()
+		rel()
+	})
+	vrt.Go("lock-double", func() {
+		rel, err := m.Lock(context.Background())
 		if err != nil {
 			return
 		}
-		rel = r
-	}
-	vrt.Atomic(func() {
-		*occ++
-		vrt.Assert(*occ == 1, "mutex-excl")
-	})
-	vrt.Atomic(func() { *occ-- })
-	rel()
-	if vrt.Bool("double") {
+		o.enterMutex()
 		rel()
-	}
+		rel()
+	})
 }
 
-// H_C01_Mutex2: two actors on one csync.Mutex.
-func H_C01_Mutex2() {
+// H_C01_MutexLocker: the sync.Locker adapter against a plain Lock.
+func H_C01_MutexLocker() {
 	var m csync.Mutex
-	var occ int
-	vrt.Go("a0", func() { actorMutex(&m, &occ) })
-	vrt.Go("a1", func() { actorMutex(&m, &occ) })
+	var o occ
+	vrt.Go("locker", func() {
+		l := m.Locker()
+		l.Lock()
+		o.enterMutex()
+		l.Unlock()
+	})
+	vrt.Go("lock", func() {
+		rel, err := m.Lock(context.Background())
+		if err != nil {
+			return
+		}
+		o.enterMutex()
+		rel()
+	})
+	vrt.Go("try", func() {
+		rel, ok := m.TryLock()
+		if ok {
+			o.enterMutex()
+			rel()
+		}
+	})
 }
 
-// H_C01_Mutex3: three actors.
-func H_C01_Mutex3() {
-	var m csync.Mutex
-	var occ int
-	vrt.Go("a0", func() { actorMutex(&m, &occ) })
-	vrt.Go("a1", func() { actorMutex(&m, &occ) })
-	vrt.Go("a2", func() { actorMutex(&m, &occ) })
+// H_C01_RW_2R1W: reader with cancellable Lock, reader with TryLock, writer with double release.
+func H_C01_RW_2R1W() {
+	var m csync.RWMutex
+	var o occ
+	vrt.Go("r-lock-cancel", func() {
+		ctx, cancel := context.WithCancel(context.Background())
+		vrt.CancelAnytime(cancel)
+		rel, err := m.Lock(ctx, false)
+		if err != nil {
+			vrt.Cover("rlock-returned-cancelled")
+			return
+		}
+		o.enterRW(false)
+		rel()
+	})
+	vrt.Go("r-try", func() {
+		rel, ok := m.TryLock(false)
+		if !ok {
+			return
+		}
+		o.enterRW(false)
+		rel()
+		rel()
+	})
+	vrt.Go("w-lock-double", func() {
+		rel, err := m.Lock(context.Background(), true)
+		if err != nil {
+			return
+		}
+		o.enterRW(true)
+		rel()
+		rel()
+	})
 }
 
-func actorRW(m *csync.RWMutex, readers, writers *int, write bool, cancels bool) {
-	ctx, cancel := context.WithCancel(context.Background())
-	if cancels {
-		vrt.Go("canceller", cancel)
-	}
+// H_C01_RW_1R2W: reader with double release, writer with cancellable Lock, writer with TryLock.
+func H_C01_RW_1R2W() {
+	var m csync.RWMutex
+	var o occ
+	vrt.Go("r-lock-double", func() {
+		rel, err := m.Lock(context.Background(), false)
+		if err != nil {
+			return
+		}
+		o.enterRW(false)
+		rel()
+		rel()
+	})
+	vrt.Go("w-lock-cancel", func() {
+		ctx, cancel := context.WithCancel(context.Background())
+		vrt.CancelAnytime(cancel)
+		rel, err := m.Lock(ctx, true)
+		if err != nil {
+			vrt.Cover("wlock-returned-cancelled")
+			return
+		}
+		vrt.Cover("wlock-granted")
+		o.enterRW(true)
+		rel()
+	})
+	vrt.Go("w-try", func() {
+		rel, ok := m.TryLock(true)
+		if !ok {
+			return
+		}
+		o.enterRW(true)
+		rel()
+		rel()
+	})
+}
+
+// H_C01_RWLocker: Locker (write) and RLocker (read) adapters against a reader.
+func H_C01_RWLocker() {
+	var m csync.RWMutex
+	var o occ
+	vrt.Go("wlocker", func() {
+		l := m.Locker()
+		l.Lock()
+		o.enterRW(true)
+		l.Unlock()
+	})
+	vrt.Go("rlocker", func() {
+		l := m.RLocker()
+		l.Lock()
+		o.enterRW(false)
+		l.Unlock()
+	})
+	vrt.Go("r-lock", func() {
+		rel, err := m.Lock(context.Background(), false)
+		if err != nil {
+			return
+		}
+		o.enterRW(false)
+		rel()
+	})
+}
+
+// actorSym: an actor whose API, mode, cancellation and double release are all symbolic
+// (thorough tier).
+func actorSym(m *csync.RWMutex, o *occ) {
+	write := vrt.Bool("write")
 	var rel func()
 	if vrt.Bool("try") {
 		r, ok := m.TryLock(write)
@@ -67,43 +211,44 @@ func actorRW(m *csync.RWMutex, readers, writers *int, write bool, cancels bool) 
 		}
 		rel = r
 	} else {
+		ctx, cancel := context.WithCancel(context.Background())
+		if vrt.Bool("cancels") {
+			vrt.CancelAnytime(cancel)
+		}
 		r, err := m.Lock(ctx, write)
 		if err != nil {
 			return
 		}
 		rel = r
 	}
-	if write {
-		vrt.Atomic(func() {
-			*writers++
-			vrt.Assert(*writers == 1 && *readers == 0, "rw-excl-w")
-		})
-		vrt.Atomic(func() { *writers-- })
-	} else {
-		vrt.Atomic(func() {
-			*readers++
-			vrt.Assert(*writers == 0, "rw-excl-r")
-		})
-		vrt.Atomic(func() { *readers-- })
-	}
+	o.enterRW(write)
 	rel()
 	if vrt.Bool("double") {
 		rel()
 	}
 }
 
-// H_C01_RW3: three actors, symbolic modes.
-func H_C01_RW3() {
+// H_C01_RWSym2 / H_C01_RWSym3: two / three fully symbolic actors.
+func H_C01_RWSym2() {
 	var m csync.RWMutex
-	var readers, writers int
-	for i := 0; i < 3; i++ {
-		w := vrt.Bool("write")
-		c := vrt.Bool("cancels")
-		vrt.Go("a", func() { actorRW(&m, &readers, &writers, w, c) })
-	}
+	var o occ
+	vrt.Go("a0", func() { actorSym(&m, &o) })
+	vrt.Go("a1", func() { actorSym(&m, &o) })
 }
 
-// H_C02_LongReader: R1 holds a read lock forever; W waits for write and is cancelled; R2 must get in.
+func H_C01_RWSym3() {
+	var m csync.RWMutex
+	var o occ
+	vrt.Go("a0", func() { actorSym(&m, &o) })
+	vrt.Go("a1", func() { actorSym(&m, &o) })
+	vrt.Go("a2", func() { actorSym(&m, &o) })
+}
+
+// ---- C02: liveness and "no trace" ----
+
+// H_C02_LongReader: R1 holds a read lock for good; W waits for the write lock and gives up
+// (cancelled); R2, a reader that may have queued behind W, must still be admitted: at
+// quiescence R2 must not be blocked.
 func H_C02_LongReader() {
 	var m csync.RWMutex
 	vrt.Go("r1", func() {
@@ -115,7 +260,7 @@ func H_C02_LongReader() {
 	})
 	vrt.Go("w", func() {
 		ctx, cancel := context.WithCancel(context.Background())
-		vrt.Go("canceller", cancel)
+		vrt.CancelAnytime(cancel)
 		rel, err := m.Lock(ctx, true)
 		if err == nil {
 			rel()
@@ -124,90 +269,131 @@ func H_C02_LongReader() {
 	vrt.Go("r2", func() {
 		rel, err := m.Lock(context.Background(), false)
 		if err == nil {
+			vrt.Cover("late-reader-admitted")
 			rel()
 		}
 	})
 }
 
-// H_C01_Mutex3Roles: three actors with fixed roles (no symmetry): a Lock with cancellation,
-// a TryLock, and a Lock with double release.
-func H_C01_Mutex3Roles() {
-	var m csync.Mutex
-	var occ int
-	enter := func() {
-		vrt.Atomic(func() {
-			occ++
-			vrt.Assert(occ == 1, "mutex-excl")
-		})
-		vrt.Atomic(func() { occ-- })
-	}
-	vrt.Go("lock-cancel", func() {
+// H_C02_NoTrace: while the main thread holds a read lock, a writer and a reader call Lock with
+// contexts that may be cancelled at any moment. When everything has returned and the main
+// thread has released, the lock behaves as if those calls had never been made: TryLock(write)
+// and then TryLock(read) succeed.
+func H_C02_NoTrace() {
+	var m csync.RWMutex
+	rel1, err := m.Lock(context.Background(), false)
+	vrt.Assert(err == nil, "first-reader-admitted")
+	vrt.Go("w", func() {
 		ctx, cancel := context.WithCancel(context.Background())
-		vrt.Go("canceller", cancel)
-		rel, err := m.Lock(ctx)
-		if err != nil {
-			return
+		vrt.CancelAnytime(cancel)
+		rel, err := m.Lock(ctx, true)
+		if err == nil {
+			rel()
+		} else {
+			vrt.Cover("writer-gave-up")
 		}
-		enter()
-		rel()
 	})
-	vrt.Go("try", func() {
-		rel, ok := m.TryLock()
-		if !ok {
-			return
+	vrt.Go("r2", func() {
+		ctx, cancel := context.WithCancel(context.Background())
+		vrt.CancelAnytime(cancel)
+		rel, err := m.Lock(ctx, false)
+		if err == nil {
+			rel()
+		} else {
+			vrt.Cover("reader-gave-up")
 		}
-		enter()
-		rel()
 	})
-	vrt.Go("lock-double", func() {
-		rel, err := m.Lock(context.Background())
-		if err != nil {
-			return
-		}
-		enter()
-		rel()
-		rel()
+	vrt.AtQuiescence(func() {
+		rel1()
+		vrt.AtQuiescence(func() {
+			r, ok := m.TryLock(true)
+			vrt.Assert(ok, "no-trace-write")
+			if ok {
+				r()
+			}
+			r, ok = m.TryLock(false)
+			vrt.Assert(ok, "no-trace-read")
+			if ok {
+				r()
+			}
+		})
 	})
 }
 
-// H_C01_Mutex3RolesEnv: like H_C01_Mutex3Roles, but the cancellation is an environment event.
-func H_C01_Mutex3RolesEnv() {
+// H_C02_MutexNoTrace: the Mutex analogue: the main thread holds, one waiter may be cancelled,
+// one waits for good; after the release everybody finishes and TryLock succeeds.
+func H_C02_MutexNoTrace() {
 	var m csync.Mutex
-	var occ int
-	enter := func() {
-		vrt.Atomic(func() {
-			occ++
-			vrt.Assert(occ == 1, "mutex-excl")
-		})
-		vrt.Atomic(func() { occ-- })
-	}
-	vrt.Go("lock-cancel", func() {
+	rel1, err := m.Lock(context.Background())
+	vrt.Assert(err == nil, "first-lock-granted")
+	vrt.Go("b", func() {
 		ctx, cancel := context.WithCancel(context.Background())
 		vrt.CancelAnytime(cancel)
 		rel, err := m.Lock(ctx)
-		if err != nil {
-			vrt.Cover("lock-returned-cancelled")
-			return
+		if err == nil {
+			rel()
+		} else {
+			vrt.Cover("waiter-gave-up")
 		}
-		vrt.Cover("lock-granted-on-slow-or-fast-path")
-		enter()
-		rel()
 	})
-	vrt.Go("try", func() {
-		rel, ok := m.TryLock()
-		if !ok {
-			return
-		}
-		enter()
-		rel()
-	})
-	vrt.Go("lock-double", func() {
+	vrt.Go("c", func() {
 		rel, err := m.Lock(context.Background())
+		if err == nil {
+			rel()
+		}
+	})
+	vrt.AtQuiescence(func() {
+		rel1()
+		vrt.AtQuiescence(func() {
+			r, ok := m.TryLock()
+			vrt.Assert(ok, "no-trace-mutex")
+			if ok {
+				r()
+			}
+		})
+	})
+}
+
+// H_C02_WriterPreference: R1 holds a read lock for good, W waits for the write lock and may be
+// cancelled by a canceller that raises a ghost flag BEFORE it cancels. R2 first observes
+// TryLock(read) == false (possible only because a writer is registered: nobody can be
+// writing), then calls Lock(read): if that is granted, the writer must have given up, hence
+// the flag must be up (or the writer acquired the lock before R1 did, a second ghost flag).
+func H_C02_WriterPreference() {
+	var m csync.RWMutex
+	var cancelCalled, wAcquired bool
+	vrt.Go("r1", func() {
+		_, err := m.Lock(context.Background(), false)
 		if err != nil {
 			return
 		}
-		enter()
-		rel()
-		rel()
+		vrt.Park()
+	})
+	vrt.Go("w", func() {
+		ctx, cancel := context.WithCancel(context.Background())
+		vrt.Go("canceller", func() {
+			vrt.Atomic(func() { cancelCalled = true })
+			cancel()
+		})
+		rel, err := m.Lock(ctx, true)
+		if err == nil {
+			vrt.Atomic(func() { wAcquired = true })
+			rel()
+		}
+	})
+	vrt.Go("r2", func() {
+		r, ok := m.TryLock(false)
+		if ok {
+			r()
+			return
+		}
+		vrt.Cover("reader-saw-waiting-writer")
+		rel, err := m.Lock(context.Background(), false)
+		if err == nil {
+			var c bool
+			vrt.Atomic(func() { c = cancelCalled || wAcquired })
+			vrt.Assert(c, "reader-overtook-waiting-writer")
+			rel()
+		}
 	})
 }
